@@ -52,7 +52,7 @@ def _is_count_expr(P, f, du, e, stmt):
 
 def classify(P, f, du, node, den_v, track_s):
     """-> (class, detail)"""
-    den = node.right if isinstance(node, ast.BinOp) else node.value
+    den = node.right if isinstance(node, ast.BinOp) else (node.args[1] if isinstance(node, ast.Call) and len(node.args) >= 2 else getattr(node, "value", node))
     stmt = du.stmt_of(node)
     e, est = resolve(du, den, stmt)
     txt = src(e)
